@@ -25,6 +25,12 @@ func genC16(g *gen) {
 		if sub.f == nil {
 			continue
 		}
+		if sub.name == "C10" {
+			// the assembling generator draws its operand layouts from asmLayouts: column-major ones for this run
+			saved := asmLayouts
+			asmLayouts = []string{"colmajor", "colconv", "colT", "contig", "colmajor", "sliced"}
+			defer func() { asmLayouts = saved }()
+		}
 		var buf bytes.Buffer
 		w := bufio.NewWriter(&buf)
 		sg := &gen{w: w, r: &rng{s: g.r.next()}, tier: g.tier, pfx: "x_"}
